@@ -383,6 +383,10 @@ class Interp:
         self.loop_assigned_cache = {}
         self._fact_info = {}
         self.mode_domains = {}   # (LexerMode variant, field) -> constants seen at all push sites
+        self.probe_enabled = True
+        self.in_probe = False
+        self.probe_loop = None
+        self.probe_benign = {}   # scanner fn -> loop locals whose difference is audited as harmless
         self.checkers = []      # segment checkers: fn(I, Segment)
         self.obs = {}           # (rule, key) -> dict(ok, site, detail, n)
         self.prune = True
@@ -587,12 +591,140 @@ class Interp:
         return res
 
     # ---- calls ------------------------------------------------------------
+    # ---- pre-consumption probe (R-PRECONSUME) -----------------------------------------------------------
+    PROBE_EFFECTS = frozenset(["consume", "add_line", "emit", "insert_token", "push", "pop", "error", "ckpt",
+                               "lasttok_write", "mode_update", "nesting", "pending", "add_literal", "cursor_restore",
+                               "stack_insert", "stack_truncate", "field_write"])
+
+    def preconsume_probe(self, name, args, st, node):
+        """A dispatcher that consumes the first character of a token itself and then hands over to a scanner loop
+        claims that the scanner would have treated this character as plain text.  Check the claim: run the first
+        iteration of the callee from the token start and compare what it does with what the caller did."""
+        from . import lea_prims
+        if not self.fn_stack:
+            return
+        caller = self.fn_stack[-1]
+        tb = st.cur_token.get("cur_token_byte_offset")
+        sn = lea_prims.snap_of(tb) if tb is not None else None
+        if sn is None or sn[1] != "main" or sn[3] != 0:
+            return
+        main = st.cursors.get("main")
+        if main is None or main.pos != sn[2] + 1:
+            return
+        # what the caller did since the token start
+        mine = []
+        for e in reversed(st.events):
+            if e.kind == "cur_token_write" and e.d.get("field") == "cur_token_byte_offset":
+                break
+            if e.kind in self.PROBE_EFFECTS:
+                mine.append(e)
+        else:
+            return
+        mine.reverse()
+        if not mine or mine[0].kind != "consume" or mine[0].d.get("via") != "advance" or mine[0].d.get("pos") != sn[2]:
+            return
+        if any((e.d.get("owner") or e.fn) != caller for e in mine) or [e.kind for e in mine] not in (["consume"], ["consume", "add_line"]):
+            return
+        rew = st.clone()
+        rew.cursors["main"].pos = sn[2]
+        n0 = len(rew.events)
+        saved = (self.checkers, self.prune)
+        self.checkers = []
+        self.prune = False
+        self.in_probe = True
+        self.probe_loop = None
+        verdict = None
+        try:
+            try:
+                outs = self.call_local(name, args, rew, node)
+            except (Unanalysed, Budget) as ex:
+                outs = None
+                verdict = ("skip", "probe not analysable: %s" % ex)
+        finally:
+            self.in_probe = False
+            self.probe_loop = None
+            self.checkers, self.prune = saved
+        if outs is not None:
+            n_loop = 0
+            n_end = 0
+            bad = None
+            benign_notes = set()
+            for o in outs:
+                if o.kind == "panic":
+                    continue
+                evs = o.st.events[n0:]
+                eff = []
+                entered = False
+                back = None
+                frame0 = None
+                for e in evs:
+                    if e.kind == "loop_enter" and not entered and not eff:
+                        entered = True
+                        frame0 = e.d.get("frame")
+                        continue
+                    if e.kind == "loop_back" and entered:
+                        back = e
+                        break
+                    if e.kind in self.PROBE_EFFECTS:
+                        eff.append(e)
+                if not entered:
+                    continue        # not a scanner loop on this path
+                n_loop += 1
+                if back is None:
+                    # the callee would stop scanning at this character (emit / break / return): the caller's
+                    # consumption only forces progress there; token boundaries differ, nothing is mis-read
+                    n_end += 1
+                    continue
+                if [x.kind for x in eff] != [x.kind for x in mine] or eff[0].d.get("via") not in ("advance",) \
+                        or eff[0].d.get("pos") != sn[2] or o.st.cursors["main"].pos != main.pos:
+                    bad = bad or ("the callee would do [%s] and stop at position +%d, the caller did [%s] and stopped at +1"
+                                  % (", ".join(x.kind for x in eff), o.st.cursors["main"].pos - sn[2], ", ".join(x.kind for x in mine)))
+                    continue
+                f1 = back.d.get("frame") or {}
+                diff = [k for k in f1 if frame0 is not None and k in frame0 and hasattr(f1[k], "key") and hasattr(frame0[k], "key")
+                        and f1[k].key() != frame0[k].key()]
+                if diff:
+                    names = self.local_names(name)
+                    dn = sorted(names.get(k, "#%s" % k) for k in diff)
+                    if all(x in self.probe_benign.get(name.split("::")[-1], ()) for x in dn):
+                        benign_notes.add(",".join(dn))
+                        continue
+                    bad = bad or ("[locals: %s] " % ",".join(dn)) + ("the callee would change its loop state (%d local(s), e.g. a nesting count or a literal "
+                                  "section start) while consuming this character; conditions: %s"
+                                  % (len(diff), "; ".join(o.st.conds[-3:])[:200]))
+            if n_loop == 0:
+                verdict = ("skip", "callee is not a scanner loop")
+            elif bad:
+                verdict = ("bad", bad)
+            else:
+                verdict = ("ok", "%d first-iteration path(s) of the callee consume exactly this character as plain text (%d would stop scanning there%s)" % (n_loop - n_end, n_end, "; audited loop-state difference: " + ";".join(sorted(benign_notes)) if benign_notes else ""))
+        self.emit(st, "preconsume_probe", node, callee=name, caller=caller, verdict=verdict[0], why=verdict[1],
+                  first=mine[0])
+
+    def local_names(self, fn):
+        key = ("names", fn)
+        if key not in self.loop_assigned_cache:
+            m = {}
+            b = self.fx.bodies.get(fn)
+            if b is not None:
+                for x, _ in F.walk(b["hir"]):
+                    if x.get("k") == "Bind" and "id" in x and x.get("name"):
+                        m[x["id"]] = x["name"]
+                for p_ in b.get("params", []):
+                    for x, _ in F.walk(p_):
+                        if x.get("k") == "Bind" and "id" in x and x.get("name"):
+                            m[x["id"]] = x["name"]
+            self.loop_assigned_cache[key] = m
+        return self.loop_assigned_cache[key]
+
     def call_local(self, name, args, st, node):
         b = self.fx.bodies.get(name)
         if b is None:
             raise Unanalysed("no body for %s" % name)
         if len(self.fn_stack) > 40:
             raise Unanalysed("call depth")
+        if self.probe_enabled and not self.in_probe:
+            self.preconsume_probe(name, args, st, node)
         frame = {}
         st.frames.append(frame)
         fidx = len(st.frames) - 1
@@ -1829,7 +1961,18 @@ class Interp:
         entry_pos = {cid: c.pos for cid, c in st.cursors.items()}
         st_entry_frame = dict(st.frames[fidx]) if fidx < len(st.frames) else {}
         back1 = []
+        probing = self.in_probe and self.probe_loop is None
+        if probing:
+            self.probe_loop = lid
+            st.events[-1].d["frame"] = dict(st.frames[fidx]) if fidx < len(st.frames) else {}
         classify(self.ev_block(n["body"], st, fidx), back1)
+        if probing:
+            # the probe only needs the first iteration of the outermost loop
+            for s in back1:
+                self.emit(s, "loop_back", n, loop=lid, iteration=1, progressed=s.cursors["main"].pos > entry_main_pos,
+                          frame=dict(s.frames[fidx]) if fidx < len(s.frames) else {})
+                res.append(Out("loopback", None, s))
+            return res
         if back1:
             assigned = self.assigned_in(n["body"])
             # cursors that moved during the first iteration on some path are advanced by an unknown amount
